@@ -18,7 +18,7 @@ def swapIR : List SStmt := [.other, .other, .other, .other, .other, .other, .sav
 /-- the decision of `spox._adapt.adapt_inline` as written (normalised source text of every expression it
     is made of): where the target and source versions come from, which guards return the build's
     nodes unconverted, which guard calls the converter, how many `return protos` there are -/
-def adaptShape : List (String × String) := [("params", "node, protos, target_opsets, var_names, node_name"), ("target_version", "target_opsets['']"), ("source_version", "max({imp.version for imp in node.model.opset_import if imp.domain in ('', 'ai.onnx')}, default=target_version)"), ("seen_domains", "{prot.domain for prot in protos}"), ("keep-if", "not seen_domains & {'', 'ai.onnx'}"), ("convert-if", "source_version != target_version"), ("convert-call", "onnx.version_converter.convert_version(node.model, target_version)"), ("return-unconverted", "line-order 0"), ("return-unconverted", "line-order 1"), ("returns", "3"), ("loops-or-nested-defs", "0")]
+def adaptShape : List (String × String) := [("params", "node, protos, target_opsets, var_names, node_name"), ("target_version", "target_opsets['']"), ("source_version", "max({imp.version for imp in node.model.opset_import if imp.domain in ('', 'ai.onnx')}, default=target_version)"), ("seen_domains", "{prot.domain for prot in protos}"), ("keep-if", "not seen_domains & {'', 'ai.onnx'}"), ("convert-if", "source_version != target_version"), ("convert-call", "onnx.version_converter.convert_version(node.model, target_version)"), ("convert-step", "_initializers_to_constants(target_model.graph)"), ("helper:_initializers_to_constants", "def _initializers_to_constants(graph: onnx.GraphProto) -> None:\n    input_names = {i.name for i in graph.input}\n    constants = [onnx.helper.make_node('Constant', [], [init.name], value=init) for init in graph.initializer if init.name not in input_names]\n    if not constants:\n        return\n    nodes = constants + list(graph.node)\n    del graph.initializer[:]\n    del graph.node[:]\n    graph.node.extend(nodes)"), ("return-unconverted", "line-order 0"), ("return-unconverted", "line-order 1"), ("returns", "3"), ("loops-or-nested-defs", "0")]
 
 /-- inventory of class `spox._inline._Inline` (methods, properties, class-level attributes, nested classes)
     and of every attribute WRITE on the node object in `_Inline`'s methods and in `adapt_inline`
